@@ -306,3 +306,46 @@ Proof.
     apply filter_ext_in'. intros [t' c'] Hin. apply in_map_iff in Hin. destruct Hin as [c'' [E _]]. inversion E; subst.
     reflexivity.
 Qed.
+
+(* ------------------------------------------------------------------ the three outputs of a bin, spelled out *)
+Lemma spec_bin_weight : forall fl l, s_w (spec_bin fl l) = qsum (map s_w (unflagged l)).
+Proof. reflexivity. Qed.
+
+Lemma spec_bin_flag : forall fl l, s_flag (spec_bin fl l) = if fl then existsb s_flag l else forallb s_flag l.
+Proof. reflexivity. Qed.
+
+Lemma Qc_is_zero_false : forall q, q <> 0%Qc -> Qc_is_zero q = false.
+Proof. intros q H. unfold Qc_is_zero. destruct (Qc_eq_dec q 0); [contradiction | reflexivity]. Qed.
+Lemma Qc_is_zero_true : forall q, q = 0%Qc -> Qc_is_zero q = true.
+Proof. intros q H. unfold Qc_is_zero. destruct (Qc_eq_dec q 0); [reflexivity | contradiction]. Qed.
+
+Lemma spec_bin_mean : forall fl l, qsum (map s_w (unflagged l)) <> 0%Qc ->
+  s_vis (spec_bin fl l) =
+  cdivq (csum (map (fun s => cscale (s_w s) (s_vis s)) (unflagged l))) (qsum (map s_w (unflagged l))).
+Proof. intros fl l H. unfold spec_bin, s_vis. cbn [fst]. now rewrite Qc_is_zero_false. Qed.
+
+Lemma spec_bin_fallback : forall fl l, qsum (map s_w (unflagged l)) = 0%Qc ->
+  s_vis (spec_bin fl l) = cscale (inv_count (List.length l)) (csum (map s_vis l)).
+Proof. intros fl l H. unfold spec_bin, s_vis. cbn [fst]. now rewrite Qc_is_zero_true. Qed.
+
+Lemma all_flagged_no_weight : forall l, forallb s_flag l = true -> qsum (map s_w (unflagged l)) = 0%Qc.
+Proof.
+  intros l H. unfold unflagged. rewrite filter_none; [reflexivity |].
+  intros s Hs. rewrite forallb_forall in H. now rewrite (H s Hs).
+Qed.
+
+(* avg_trim, extensionally: two inputs that agree on the whole bins give the same averages *)
+Lemma average_ignores_tail : forall a a' T F B timeav chanav flagav r r',
+  average a T F B timeav chanav flagav = Some r -> average a' T F B timeav chanav flagav = Some r' ->
+  let ta := time_factor timeav T in
+  let ca := chan_factor chanav F in
+  (forall t c b, t < T / ta * ta -> c < F / ca * ca -> b < B -> get3 a sample0 t c b = get3 a' sample0 t c b) ->
+  forall i j b, i < T / ta -> j < F / ca -> b < B -> get3 r sample0 i j b = get3 r' sample0 i j b.
+Proof.
+  intros a a' T F B timeav chanav flagav r r' H H' ta ca Hag i j b Hi Hj Hb.
+  apply average_spec_gen in H. apply average_spec_gen in H'.
+  destruct H as [Ht [Hc [_ [_ [_ P]]]]]. destruct H' as [_ [_ [_ [_ [_ P']]]]].
+  fold (time_factor timeav T) in *. fold (chan_factor chanav F) in *. fold ta in P, P', Ht. fold ca in P, P', Hc.
+  rewrite P, P' by assumption. f_equal. apply map_ext_in. intros [t c] Hin. cbn [fst snd].
+  destruct (bin_positions_whole ta ca T F i j t c Ht Hc Hi Hj Hin) as [A [B' _]]. now apply Hag.
+Qed.
